@@ -1101,6 +1101,17 @@ func Run(c *lib.Ctx) {
 	n := c.Scale(2500, 20000)
 	maxLen := c.Scale(12, 40)
 	for i := 0; i < n; i++ {
+		// SIZE FAMILIES: about one case in ten (one in five at thorough) is a long history – tens to 150 writes
+		// to one reader, with a window of unanswered requests, in bursts, across unlink/relink, with many
+		// responses leaving in one step – the sizes ordinary use reaches and short histories never do
+		if rng.Chance(1, c.Scale(10, 5)) {
+			ops, fam, writes, window := longHistory(rng.Fork())
+			c.Hit("long-family-" + fam)
+			c.Hit("long-writes-" + sizeBucket(writes))
+			c.Hit("long-max-unanswered-" + sizeBucket(window))
+			record(runHistory(2, fixed(ops)), fmt.Sprintf("long history %d (%s, %d writes, up to %d unanswered)", i, fam, writes, window))
+			continue
+		}
 		g := &gen{r: rng.Fork(), n: rng.Range(1, maxReaders), length: rng.Range(2, maxLen), avoid: rng.Chance(1, 2),
 			settle: rng.Chance(1, 2), lagging: rng.Intn(4)}
 		record(runHistory(g.n, g.next), fmt.Sprintf("random history %d", i))
@@ -1212,6 +1223,180 @@ func Run(c *lib.Ctx) {
 	}
 	c.Extra["spec_cases"] = fmt.Sprintf("all %d histories also compared with the id-keyed specification: %d differ", spec.Cases(), len(ms2))
 	c.Conclude("Uniflow.Writer.step ~ packet.Writer/Reader (per-step return value, responses, deliveries); Uniflow.WriterSpec.step (all histories)", append(ms, ms2...), fails)
+}
+
+func sizeBucket(n int) string {
+	switch {
+	case n <= 1:
+		return "0-1"
+	case n <= 8:
+		return "2-8"
+	case n <= 16:
+		return "9-16"
+	case n <= 32:
+		return "17-32"
+	case n <= 64:
+		return "33-64"
+	}
+	return "65+"
+}
+
+// longHistory builds one history of a size family; it returns the family, the number of writes to reader 0 and
+// the largest number of requests reader 0 had unanswered at once.
+func longHistory(r *lib.RNG) (ops []op, family string, writes, window int) {
+	ctr := 0
+	pending := 0 // requests reader 0 has accepted and not answered (its queue in the current link)
+	write := func() {
+		ctr++
+		ops = append(ops, op{kind: "write", k: ctr})
+		writes++
+		pending++
+		if pending > window {
+			window = pending
+		}
+	}
+	ans := func(rd int) {
+		ctr++
+		o := op{kind: "ans", r: rd, ak: 'v', k: ctr}
+		switch r.Intn(12) {
+		case 0:
+			o.ak = 'n'
+		case 1:
+			o.ak, o.k = 'e', ctr
+		}
+		ops = append(ops, o)
+		if rd == 0 && pending > 0 {
+			pending--
+		}
+	}
+	windowed := func(n, w int) {
+		for i := 0; i < n; i++ {
+			write()
+			for pending >= w && pending > 0 {
+				ans(0)
+				if w > 1 && r.Chance(1, 3) {
+					break
+				}
+			}
+			for pending > w+3 {
+				ans(0)
+			}
+		}
+	}
+	bursts := []int{16, 17, 18, 33, 40, 65, 100}
+	windows := []int{1, 2, 5, 17, 24}
+	ops = append(ops, op{kind: "link", r: 0})
+	switch r.Intn(7) {
+	case 0: // a window of w unanswered requests over 20..150 writes, then everything answered
+		family = "window"
+		windowed(r.Range(20, 150), lib.Pick(r, windows))
+		for pending > 0 {
+			ans(0)
+		}
+	case 1: // bursts of n writes, then n answers oldest first
+		family = "burst"
+		for b := r.Range(1, 2); b > 0; b-- {
+			n := lib.Pick(r, bursts)
+			for i := 0; i < n; i++ {
+				write()
+			}
+			for pending > 0 {
+				ans(0)
+			}
+		}
+	case 2: // a long run, unlink with requests outstanding (they are answered `dropped`), relink, a long run again
+		family = "relink"
+		windowed(r.Range(17, 60), lib.Pick(r, windows))
+		stale := pending
+		ops = append(ops, op{kind: "unlink", r: 0}, op{kind: "link", r: 0})
+		pending = 0
+		windowed(r.Range(17, 60), lib.Pick(r, windows))
+		// the reader first answers what it was asked before the unlink (ignored), then the rest
+		for i := 0; i < stale; i++ {
+			ans(0)
+		}
+		for pending > 0 {
+			ans(0)
+		}
+	case 3: // many responses leave in ONE step: a second reader answers everything, then the slow one is unlinked
+		family = "flush-many"
+		ops = append(ops, op{kind: "link", r: 1})
+		// warm-up: k responses that waited in the pump TOGETHER (k rows completed by reader 1 are flushed by
+		// one Unlink of reader 0) and were then taken – the pump's backlog has moved on by k
+		if k := lib.Pick(r, []int{0, 1, 3, 7, 8, 9}); k > 0 {
+			for i := 0; i < k; i++ {
+				write()
+			}
+			for i := 0; i < k; i++ {
+				ans(1)
+			}
+			ops = append(ops, op{kind: "unlink", r: 0}, op{kind: "link", r: 0})
+			for i := 0; i < k; i++ {
+				ans(0) // the late answers of the removed link: ignored
+			}
+			pending = 0
+		}
+		n := r.Range(9, 70)
+		for i := 0; i < n; i++ {
+			write()
+		}
+		for i := 0; i < n; i++ {
+			ans(1)
+		}
+		switch r.Intn(3) {
+		case 0:
+			ops = append(ops, op{kind: "unlink", r: 0})
+			pending = 0
+		case 1:
+			for pending > 0 {
+				ans(0)
+			}
+		default:
+			ops = append(ops, op{kind: "closer", r: 0})
+			for i := 0; i < n; i++ {
+				ops = append(ops, op{kind: "drop", r: 0})
+			}
+			pending = 0
+		}
+	case 4: // the reader closes with 9..40 requests unanswered: one drop notice each, delivered one by one
+		family = "close-reader"
+		windowed(r.Range(0, 20), 1)
+		n := r.Range(9, 40)
+		for i := 0; i < n; i++ {
+			write()
+		}
+		ops = append(ops, op{kind: "closer", r: 0})
+		for i := 0; i < n+1; i++ {
+			ops = append(ops, op{kind: "drop", r: 0})
+		}
+	case 5: // answers in flight: 17..40 requests popped, delivered newest first, then the rest oldest first
+		family = "pop-deliver"
+		n := r.Range(17, 40)
+		for i := 0; i < n; i++ {
+			write()
+		}
+		k := r.Range(2, n)
+		for i := 0; i < k; i++ {
+			ctr++
+			ops = append(ops, op{kind: "pop", r: 0, ak: 'v', k: ctr})
+		}
+		for i := k - 1; i >= 0; i-- {
+			ops = append(ops, op{kind: "deliver", r: 0, k: i})
+		}
+		pending -= k
+		for pending > 0 {
+			ans(0)
+		}
+	default: // the writer closes with 9..40 requests pending after a warm-up
+		family = "close-writer"
+		windowed(r.Range(1, 20), 1)
+		n := r.Range(9, 40)
+		for i := 0; i < n; i++ {
+			write()
+		}
+		ops = append(ops, op{kind: "closew"})
+	}
+	return ops, family, writes, window
 }
 
 func bucket(n int) string {
